@@ -60,6 +60,8 @@ TABLE = {
     "../seeded/C05-2/patch.diff": ("contracts.c05", "_handle_latch_write_standard", "sr_latch"),
     "../seeded/C10-1/patch.diff": ("contracts.c10", "_apply_mst_to_source_fanout", None),
     "../seeded/C10-3/patch.diff": ("contracts.c10", "_apply_mst_to_source_fanout", None),
+    "../seeded/C01-3/patch.diff": ("contracts.c10", "CSEOptimizer.optimize", None),
+    "../seeded/C12-4/patch.diff": ("contracts.c10", "CSEOptimizer.optimize", None),
     "../seeded/C01-4/patch.diff": ("contracts.c07", "_configure_decider", "operation = <"),
 }
 RUNNER = r'''
